@@ -909,6 +909,85 @@ func genConstsFacts() map[string]any {
 			}
 		}
 	}
+	// the session tracker: every exported method takes the tracker mutex first and holds it to the end
+	// (Lock, then a deferred Unlock, before any other statement but deferred calls)
+	type lockFact struct {
+		Fn     string
+		Locked bool
+	}
+	var trackerLocks []lockFact
+	{
+		fsT, fT := parseFile("processors/auditd/sessiontracker/sessiontracker.go")
+		fmT := funcs(fT)
+		for _, name := range []string{"RemoteLogin", "AuditdEvent", "DeleteUsersWithoutLoginsBefore", "DeleteRemoteUserLoginsBefore"} {
+			fd := fmT["sessionTracker."+name]
+			if fd == nil {
+				unsup("sessiontracker.go: method %s not found", name)
+				continue
+			}
+			locked, sawLock := false, false
+			for _, st := range fd.Body.List {
+				txt := src("processors/auditd/sessiontracker/sessiontracker.go", fsT, st)
+				if d, ok := st.(*ast.DeferStmt); ok {
+					if sawLock && strings.HasSuffix(src("processors/auditd/sessiontracker/sessiontracker.go", fsT, d.Call), ".mtx.Unlock()") {
+						locked = true
+						break
+					}
+					continue // other deferred calls (the verif hook) may come first
+				}
+				if !sawLock && strings.HasSuffix(txt, ".mtx.Lock()") {
+					sawLock = true
+					continue
+				}
+				break // any other statement before the lock is held with a deferred unlock
+			}
+			trackerLocks = append(trackerLocks, lockFact{name, locked})
+		}
+	}
+	// GenericSyncMap: every locking method is one critical section (Lock first, deferred Unlock)
+	var syncMapLocks []lockFact
+	{
+		rel := "internal/common/genericsyncmap.go"
+		fsM, fM := parseFile(rel)
+		fmM := funcs(fM)
+		for _, name := range []string{"Load", "Has", "Store", "Delete", "Len", "Iterate", "WithLockedValueDo"} {
+			var fd *ast.FuncDecl
+			for k, v := range fmM {
+				if strings.HasSuffix(k, "."+name) || k == name {
+					fd = v
+				}
+			}
+			if fd == nil {
+				// generic receivers: GenericSyncMap[K, V]
+				for _, d := range fM.Decls {
+					if x, ok := d.(*ast.FuncDecl); ok && x.Name.Name == name && x.Recv != nil {
+						fd = x
+					}
+				}
+			}
+			if fd == nil {
+				unsup("genericsyncmap.go: method %s not found", name)
+				continue
+			}
+			locked, sawLock := false, false
+			for _, st := range fd.Body.List {
+				txt := src(rel, fsM, st)
+				if d, ok := st.(*ast.DeferStmt); ok {
+					if sawLock && strings.HasSuffix(src(rel, fsM, d.Call), ".mtx.Unlock()") {
+						locked = true
+						break
+					}
+					continue
+				}
+				if !sawLock && strings.HasSuffix(txt, ".mtx.Lock()") {
+					sawLock = true
+					continue
+				}
+				break
+			}
+			syncMapLocks = append(syncMapLocks, lockFact{name, locked})
+		}
+	}
 	// `ready` receive in Ingest must be inside a select with ctx
 	var b strings.Builder
 	b.WriteString("-- GENERATED by tools/extract from processors/auditd/auditd.go, cmd/namedpipe.go, main.go; do not edit\nnamespace AM.Gen\n\n")
@@ -938,6 +1017,22 @@ func genConstsFacts() map[string]any {
 	emit("recvs", loops)
 	fmt.Fprintf(&fb, "def ingestOpenRacedWithCtx : Bool := %v\ndef ingestCloserOnCtx : Bool := %v\n\n", ingestOpenRaced, ingestCloser)
 	fmt.Fprintf(&fb, "/-- `Auditd.Read`: `go` statements, those whose body defers `workers.Done()`, those started on the derived (cancellable) context; whether a deferred function cancels that context and then waits for the Go routines; channel capacities -/\ndef readGoStmts : Nat := %d\ndef readGoJoined : Nat := %d\ndef readGoOnWorkersCtx : Nat := %d\ndef readDefersCancelThenWait : Bool := %v\ndef parseDoneCap : Nat := %d\ndef reassemblerErrorsCap : Nat := %d\n\n", readGo, readGoJoined, readGoCtx, readDefersWait, max64(parseDoneCap, 0), max64(reassErrCap, 0))
+	fb.WriteString("/-- the session tracker's exported methods: does the method take the tracker mutex first and release it by a deferred unlock -/\ndef trackerLocked : List (String × Bool) :=\n  [")
+	for i, l := range trackerLocks {
+		if i > 0 {
+			fb.WriteString(", ")
+		}
+		fmt.Fprintf(&fb, "(%s, %v)", leanStr(l.Fn), l.Locked)
+	}
+	fb.WriteString("]\n\n")
+	fb.WriteString("/-- GenericSyncMap's locking methods: is the whole body one critical section -/\ndef syncMapLocked : List (String × Bool) :=\n  [")
+	for i, l := range syncMapLocks {
+		if i > 0 {
+			fb.WriteString(", ")
+		}
+		fmt.Fprintf(&fb, "(%s, %v)", leanStr(l.Fn), l.Locked)
+	}
+	fb.WriteString("]\n\n")
 	fb.WriteString("/-- number of `return … nil` statements per worker function -/\ndef returnsNil : List (String × Nat) :=\n  [")
 	var ks []string
 	for k := range retNil {
@@ -962,6 +1057,8 @@ func genConstsFacts() map[string]any {
 	out["returnsNil"] = retNil
 	out["ingestOpenRacedWithCtx"] = ingestOpenRaced
 	out["ingestCloserOnCtx"] = ingestCloser
+	out["trackerLocked"] = trackerLocks
+	out["syncMapLocked"] = syncMapLocks
 	out["readGo"] = []int{readGo, readGoJoined, readGoCtx}
 	out["readDefersCancelThenWait"] = readDefersWait
 	out["parseDoneCap"] = parseDoneCap
